@@ -34,6 +34,21 @@ def model(check, name, gor, maxcalls, panic, nilfirst=True, maxobj=6, timeout=18
     return r
 
 
+def model_sim(check, name, gor, maxcalls, panic, maxobj, num, depth=120, timeout=3600):
+    """A configuration too large for exhaustive search (measured: 2 goroutines x 2 calls with 4 objects exceeds 16 M distinct
+    states after 7 minutes and 50 GB of state files): TLC checks the same invariants along random behaviours instead."""
+    wd = common.workdir("%s-vtsim-%s" % (check.prop, name))
+    r = common.tlc(wd, "ValidatorTree", VT_CFG % (gor, maxobj, maxcalls, "TRUE", "TRUE" if panic else "FALSE"), timeout=timeout, workers=8, heap="4g",
+                   simulate="num=%d" % num, extra_args=["-depth", str(depth), "-seed", str(check.seed)])
+    if r["timeout"]:
+        raise Inconclusive("ValidatorTree simulation %s timed out" % name)
+    if r["violated"] or r["error"]:
+        raise Inconclusive("ValidatorTree(%s, simulation): %s\n%s" % (name, r["violated"] or r["error"], r["out"][-1500:]))
+    check.coverage["states"] += r["states"]
+    check.coverage.setdefault("simulated_models", {})[name] = dict(states_checked=r["states"], behaviours=r.get("traces", 0), depth=depth)
+    return r
+
+
 def histories(check, vh, name, args, full, timeout=None):
     """Run histories on the real code, then validate the recorded stream with Trace_Pools."""
     timeout = timeout or (900 if check.tier == "quick" else 14400)
